@@ -68,6 +68,8 @@ pub enum Op {
     CloneAndContinue,
     /// Replace the value by a fresh one filled with `insert_raw` in the current iteration order.
     RebuildFromIteration,
+    /// `other.clone_from(&value)` into a value that already holds these (other) entries; go on with `other`.
+    CloneFromInto { stale: Vec<(String, String)> },
     /// A fault between two operations: on a scratch value (and through the parser) a conversion that
     /// is refused because `bad_alg` carries invalid hex, while `good_alg` is well-formed. Its outcome is
     /// not judged (invalid hex is outside C12); what follows must be unaffected by it.
@@ -353,8 +355,20 @@ fn via_builder(c: &Checksum<'_>, model: &Model, typed: bool, spell_seed: u64, at
     } else if (spell_seed >> 12) % 3 == 0 {
         // A removal before the checksum goes in: the first of the surrounding qualifiers.
         if let Some((first, _)) = around.iter().find(|(k, _)| *k != "checksum") {
-            builder = guarded(move || builder.without_qualifier(*first))
-                .map_err(|p| violation!("C12.panic_in_builder", "{at}: without_qualifier({first:?}) panicked: {p}"))?;
+            let via_entry = (spell_seed >> 16) % 2 == 0;
+            builder = guarded(move || {
+                if via_entry {
+                    // The same removal through the Entry API on the builder's public parts.
+                    let mut b = builder;
+                    if let Ok(purl::qualifiers::Entry::Occupied(o)) = b.parts.qualifiers.entry(*first) {
+                        o.remove();
+                    }
+                    b
+                } else {
+                    builder.without_qualifier(*first)
+                }
+            })
+            .map_err(|p| violation!("C12.panic_in_builder", "{at}: removing {first:?} panicked: {p}"))?;
         }
     }
     ev!(log, "{at} builder surroundings {around:?}");
@@ -539,6 +553,14 @@ fn run_plan(sc: &Scenario, plan_no: usize, plan: HashPlan, log: &mut Log, stats:
             Op::CloneAndContinue => {
                 c = guarded(|| c.clone()).map_err(|p| violation!("C12.panic_in_clone", "{at}: clone panicked: {p}"))?;
             },
+            Op::CloneFromInto { stale } => {
+                let mut other = Checksum::default();
+                for (alg, hex) in stale {
+                    other.insert_raw(alg, hex.clone());
+                }
+                guarded(|| other.clone_from(&c)).map_err(|p| violation!("C12.panic_in_clone", "{at}: clone_from panicked: {p}"))?;
+                c = other;
+            },
             Op::RebuildFromIteration => {
                 let entries = guarded(|| observe(&c)).map_err(|p| violation!("C12.panic_in_iter", "{at}: iter() panicked: {p}"))?;
                 let mut fresh = Checksum::default();
@@ -571,16 +593,22 @@ fn run_plan(sc: &Scenario, plan_no: usize, plan: HashPlan, log: &mut Log, stats:
             Op::ViaBuilder { typed } => via_builder(&c, &model, *typed, sc.spell_seed, &at, log)?,
             Op::ViaParser => via_parser(&model, sc.spell_seed, &at, log)?,
         }
-        for threshold in [3usize, 7, 14, 28, 56] {
+        for threshold in [3usize, 7, 14, 28, 56, 112, 224, 255, 256] {
             if before <= threshold && model.len() > threshold {
                 stats.bump("growth_threshold_crossed");
             }
         }
         // In long histories the full state comparison runs on every 8th operation (and at the end);
         // the cheap part (entry set through iter()) runs always.
-        if sc.ops.len() <= 24 || i % 8 == 7 {
+        if sc.ops.len() <= 24 || (sc.ops.len() <= 100 && i % 8 == 7) || i % 64 == 63 {
             let entries = check_state(&c, &model, &at)?;
             log_entries(log, &at, Some(op), &entries);
+        } else if sc.ops.len() > 100 {
+            // Huge histories: between the full comparisons only the size is looked at.
+            let n = guarded(|| c.iter().count()).map_err(|p| violation!("C12.panic_in_iter", "{at}: iter() panicked: {p}"))?;
+            if n != model.len() {
+                return Err(violation!("C12.entries_differ_from_model", "{at}: iter() yields {n} entries, reference model holds {}", model.len()));
+            }
         } else {
             let entries = guarded(|| observe(&c)).map_err(|p| violation!("C12.panic_in_iter", "{at}: iter() panicked: {p}"))?;
             if as_model(&entries) != model_vec(&model) {
@@ -713,11 +741,17 @@ impl Sim for C12 {
             Mode::FirstByte,
         ];
         let plans = rng.range(2, 4);
+        let plans_cap_for_huge = 2;
         let hash_plans =
             (0..plans).map(|_| HashPlan { mode: *rng.pick(MODES), key: rng.next_u64() }).collect();
         // Swarm: size and mix vary per run.
-        let large = rng.chance(1, 50);
-        let n_ops = if large {
+        // One run in 1500 is huge: 260-330 inserts of distinct names (more entries than a byte can
+        // count), two hash plans, no other operations.
+        let huge = rng.chance(1, 1500);
+        let large = huge || rng.chance(1, 50);
+        let n_ops = if huge {
+            rng.range(260, 330)
+        } else if large {
             rng.range(25, 70)
         } else {
             match rng.below(10) {
@@ -730,7 +764,9 @@ impl Sim for C12 {
         };
         // Large runs draw from a generated family (common prefixes, two letter cases) so that the
         // entry count crosses the growth thresholds 14, 28 and 56 of std's HashMap.
-        let generated: Vec<String> = if large {
+        let generated: Vec<String> = if huge {
+            (0..340).map(|i| if i % 3 == 0 { format!("H{i}") } else { format!("h{i}") }).collect()
+        } else if large {
             (0..48)
                 .flat_map(|i| [format!("alg{i}"), format!("ALG{i}")])
                 .chain((0..16).map(|i| format!("sha512-{i:03}")))
@@ -766,16 +802,24 @@ impl Sim for C12 {
             }
             s
         };
-        for _ in 0..n_ops {
+        for n in 0..n_ops {
+            if huge {
+                // Distinct names, mostly short values.
+                let name = universe[n % universe.len()].to_owned();
+                let value = if n % 7 == 0 { String::new() } else { format!("{:02X}{:02x}", n % 256, (n * 7) % 256) };
+                ops.push(Op::InsertRaw { alg: name, hex: value });
+                continue;
+            }
             let op = match rng.below(14 + remove_weight * 2) {
                 0..=4 => Op::Insert { alg: alg(&mut rng), bytes_hex: hex(&mut rng, false) },
                 5..=8 => Op::InsertRaw { alg: alg(&mut rng), hex: hex(&mut rng, true) },
-                9 => {
-                    if rng.chance(1, 2) {
-                        Op::CloneAndContinue
-                    } else {
-                        Op::RebuildFromIteration
-                    }
+                9 => match rng.below(3) {
+                    0 => Op::CloneAndContinue,
+                    1 => Op::RebuildFromIteration,
+                    _ => {
+                        let n = rng.range(1, 3);
+                        Op::CloneFromInto { stale: (0..n).map(|_| (lower(&alg(&mut rng)), hex(&mut rng, true))).collect() }
+                    },
                 },
                 10 => {
                     if rng.chance(1, 2) {
@@ -796,6 +840,10 @@ impl Sim for C12 {
         }
         let alt_len = rng.range(0, 8);
         let alt_order = rng.permutation(alt_len);
+        let mut hash_plans: Vec<HashPlan> = hash_plans;
+        if huge {
+            hash_plans.truncate(plans_cap_for_huge);
+        }
         Scenario {
             hash_plans,
             ops,
